@@ -69,22 +69,24 @@ func mesh3(name string) (*model3d.Mesh, int, int) {
 		// the thin box after coplanar elimination: opposite vertices of some edges are already connected
 		m, e, k := mesh3("thin")
 		return m.EliminateCoplanar(1e-8), e, k
-	case "prismcap":
-		// a prism over an irregular polygon inscribed in a circle: every pair of cap triangles forms a
-		// cocircular quadrilateral (an exact tie for the Delaunay criterion)
-		angles := []float64{0, 0.5, 1.3, 2.0, 3.1, 3.9, 4.4, 5.5}
-		n := len(angles)
+	case "prismcap7", "prismcap", "prismcap40":
+		// a prism over an irregular polygon inscribed in a circle, caps triangulated as fans: every pair of
+		// adjacent cap triangles forms a cocircular quadrilateral (an exact tie for the Delaunay criterion,
+		// up to rounding of the computed angles)
+		n := map[string]int{"prismcap7": 7, "prismcap": 12, "prismcap40": 40}[name]
 		pt := func(i int, z float64) model3d.Coord3D {
-			return model3d.XYZ(2*math.Cos(angles[i%n]), 2*math.Sin(angles[i%n]), z)
+			i %= n
+			a := 2 * math.Pi * (float64(i) + 0.35*math.Sin(float64(i)*1.7+0.3)) / float64(n)
+			return model3d.XYZ(1.3*math.Cos(a), 1.3*math.Sin(a), z)
 		}
 		m := model3d.NewMesh()
 		for i := 1; i+1 < n; i++ {
-			m.Add(&model3d.Triangle{pt(0, 1), pt(i, 1), pt(i+1, 1)})
+			m.Add(&model3d.Triangle{pt(0, 0.7), pt(i, 0.7), pt(i+1, 0.7)})
 			m.Add(&model3d.Triangle{pt(0, 0), pt(i+1, 0), pt(i, 0)})
 		}
 		for i := 0; i < n; i++ {
-			m.Add(&model3d.Triangle{pt(i, 0), pt(i+1, 0), pt(i+1, 1)})
-			m.Add(&model3d.Triangle{pt(i, 0), pt(i+1, 1), pt(i, 1)})
+			m.Add(&model3d.Triangle{pt(i, 0), pt(i+1, 0), pt(i+1, 0.7)})
+			m.Add(&model3d.Triangle{pt(i, 0), pt(i+1, 0.7), pt(i, 0.7)})
 		}
 		return m, 2, 1
 	case "octa":
